@@ -32,6 +32,7 @@ Record Inv (c : cfg) (v : ver) : Prop := {
   inv_sn : sorted (v_nodes v);
   inv_sd : sorted (v_delegs v);
   inv_v : forall k, In k (keys (v_nodes v)) -> validk c k;
+  inv_nd : forall n nd, In (n, nd) (v_nodes v) -> NoDup (map fst (nrds nd));
   inv_f : forall n nd, In (n, nd) (v_nodes v) -> nflags nd = flags_of c (v_nodes v) (n, nd);
   inv_d : forall k, In k (keys (v_delegs v)) <-> (owner c (v_nodes v) k /\ ~ occk c (v_nodes v) k) }.
 
